@@ -64,3 +64,30 @@ Example C03_vectors :
   unarmor Std (bytes "9") 0 = Ok [36] /\ unarmor Std (bytes "9q") 2 = Ok [39; 128] /\
   unarmor Std (bytes "") 3 = Ok [] /\ unarmor Std (bytes "9!") 0 = Err ENmea.
 Proof. vm_compute. repeat split; reflexivity. Qed.
+
+(* round trip: every sequence of 6-bit values has an armouring, and unarmoring it gives back exactly
+   those bits (fill bits cleared, padded to whole bytes) *)
+Definition armor_char (v : N) : N := if v <? 40 then v + 48 else v + 56.
+
+Lemma armor_val_armor_char v : v < 64 -> armor_val (armor_char v) = Some v.
+Proof.
+  intros Hv. unfold armor_val, armor_char. destruct (N.ltb_spec v 40).
+  - destruct (N.leb_spec 48 (v + 48)), (N.leb_spec (v + 48) 87); cbn [andb]; try lia. f_equal. lia.
+  - destruct (N.leb_spec 48 (v + 56)), (N.leb_spec (v + 56) 87); cbn [andb]; try lia;
+    destruct (N.leb_spec 96 (v + 56)), (N.leb_spec (v + 56) 119); cbn [andb]; try lia; f_equal; lia.
+Qed.
+
+Theorem C03_roundtrip :
+  forall c vs fill, (fill <= 5)%nat -> Forall (fun v => v < 64) vs ->
+    unarmor c (map armor_char vs) fill =
+    if noalloc c && (MAX_SENTENCE_SIZE_BYTES <? byte_count (List.length vs))%nat then Err ENmea
+    else Ok (bytes_of_bits (unarmor_bits vs fill)).
+Proof.
+  intros c vs fill Hf Hv. rewrite (unarmor_correct c _ fill Hf). rewrite map_length.
+  destruct (noalloc c && _); [reflexivity|]. unfold unarmor_spec.
+  assert (E : vals_of (map armor_char vs) = Some vs).
+  { induction Hv as [|v r Hv1 Hr IH]; [reflexivity|]. cbn [map vals_of].
+    rewrite (armor_val_armor_char v Hv1), IH. reflexivity. }
+  rewrite E. reflexivity.
+Qed.
+Print Assumptions C03_roundtrip.
